@@ -287,8 +287,11 @@ package simpledb
 //@ func executeFlush
 //@   props C02 C13 C11 C01
 //@   requires db != nil && db.sstableManager != nil && db.sstableManager.managerLock != nil && flushAction.memStore != nil && deref(flushAction.memStore) != nil
+//@   call 0 of os.Rename: assert [C02:table-gets-its-name-only-when-complete] called(MemStoreI.FlushWithTombstones, 0) &&
+//@        callres(MemStoreI.FlushWithTombstones, 0, 0) == nil && arg0 == tmpPath && arg1 == writePath
 //@   call 0 of os.Remove: assert [C02,C13:log-removed-only-after-the-table-is-written] called(MemStoreI.FlushWithTombstones, 0) &&
-//@        callres(MemStoreI.FlushWithTombstones, 0, 0) == nil && arg0 == flushAction.walPath
+//@        callres(MemStoreI.FlushWithTombstones, 0, 0) == nil && called(os.Rename, 0) && callres(os.Rename, 0, 0) == nil && arg0 == flushAction.walPath
+//@   call 0 of sstables.NewSSTableReader: assert [C02:reads-the-renamed-table] called(os.Rename, 0) && callres(os.Rename, 0, 0) == nil
 //@   call 0 of SSTableManager.addReader: assert [C01,C02:installs-the-table-just-written] called(sstables.NewSSTableReader, 0) &&
 //@        callres(sstables.NewSSTableReader, 0, 1) == nil && arg0 == callres(sstables.NewSSTableReader, 0, 0)
 //@   exit [C11:flush-error-reported] called(MemStoreI.FlushWithTombstones, 0) && callres(MemStoreI.FlushWithTombstones, 0, 0) != nil ==> r0 != nil
@@ -301,7 +304,7 @@ package simpledb
 //@ func (*DB).replayAndSetupWriteAheadLog
 //@   props C10 C02 C13
 //@   requires db.memStore != nil && db.memStore.writeStore != nil && db.sstableManager != nil && db.sstableManager.managerLock != nil
-//@   call 0 of os.RemoveAll: assert [C10,C02:log-removed-only-after-the-replayed-records-are-in-a-table] numRecords == 0 ||
+//@   call 0 of removeWalOldestFirst: assert [C10,C02:log-removed-only-after-the-replayed-records-are-in-a-table] numRecords == 0 ||
 //@        (called(executeFlush, 0) && callres(executeFlush, 0, 0) == nil)
 //@   exit [C10:replay-error-fails-the-open] called(WriteAheadLogReplayI.Replay, 0) && callres(WriteAheadLogReplayI.Replay, 0, 0) != nil ==> r0 != nil
 //@   exit [C10,C02:flush-error-fails-the-open] called(executeFlush, 0) && callres(executeFlush, 0, 0) != nil ==> r0 != nil
@@ -314,3 +317,13 @@ package simpledb
 //@   ensures [C02,C10:every-applied-record-is-counted] r0 == nil ==> numRecords == old(numRecords) + 1
 //@   modifies numRecords, mst(*), mvl(*), fresh(*)
 //@   exit [apply-errors-reported] (called(RWMemstore.Upsert, 0) && callres(RWMemstore.Upsert, 0, 0) != nil) || (called(RWMemstore.Upsert, 1) && callres(RWMemstore.Upsert, 1, 0) != nil) ==> r0 != nil
+
+// C10: the log directory is cleared file by file in listing (= log) order, the directory itself last; a removal that fails
+// stops the cleanup, so that newer files are never removed while an older one is left.
+//@ func removeWalOldestFirst
+//@   props C10
+//@   replay crash_points
+//@   exit [C10:failed-removal-stops-the-cleanup] called(os.RemoveAll, 0) && callres(os.RemoveAll, 0, 0) != nil ==> r0 != nil && !called(os.RemoveAll, 1)
+//@   exit [C10:listing-error-removes-nothing] callres(os.ReadDir, 0, 1) != nil ==> r0 != nil && !called(os.RemoveAll, 0) && !called(os.RemoveAll, 1)
+//@   loop 0
+//@     invariant [no-failure-so-far] !called(os.RemoveAll, 1)
